@@ -10,6 +10,7 @@ behaviour under every hash seed), independent of the Lean model.
 """
 from __future__ import annotations
 
+import copy
 import random
 
 from .. import tablekit as tk
@@ -92,6 +93,119 @@ class Gen:
         q = ["T"] if rng.random() < 0.55 else tk.random_pred(rng, qcols + ([("tracked", "bool")] if rng.random() < 0.3 else []))
         return {"a": "get", "view": vid, "idx": idx, "q": q, "mutate": rng.random() < 0.5,
                 "ikind": rng.choice(IKINDS + ["obj-empty"]), "noq": rng.random() < 0.5, "kw": rng.random() < 0.2}
+
+    # ---- lesson 12: the same operation of the same handle twice, with somebody else in between
+    def other_handles(self, vid, col):
+        """handles other than `vid` through which `col` can be written"""
+        return [v for v in self.views if v != vid and col in self.vcols(v) and col in self.dtypes]
+
+    def overwrite(self, other, col, rows, avoid):
+        """an update through another handle that changes at least one of the cells `(rows, col)` (current supplied values `avoid`)"""
+        rng = self.rng
+        k = rng.randrange(len(rows))
+        pick = sorted({rows[k]} | {r for r in rows if rng.random() < 0.3})
+        rng.shuffle(pick)
+        toks = []
+        for r in pick:
+            t = tk.value_tokens(self.dtypes[col], rng, 1, allow_null=False)[0]
+            for _ in range(20):
+                if tk.norm_tok(t) != tk.norm_tok(avoid[rows.index(r)]):
+                    break
+                t = tk.value_tokens(self.dtypes[col], rng, 1, allow_null=False)[0]
+            if self.dtypes[col] == "bool":
+                t = "b0" if avoid[rows.index(r)] == "b1" else "b1"
+            toks.append(t)
+        spec = {"a": "upd", "view": other, "form": "D", "rows": pick, "ikind": rng.choice(IKINDS), "cols": [[col, self.dtypes[col], toks]],
+                "mutate": False, "move": "overwrite-by-another-handle"}
+        if rng.random() < 0.4:
+            spec["form"] = "S"
+            if len(self.vcols(other)) == 1 and rng.random() < 0.5:
+                spec["cols"][0][0] = None
+        return spec
+
+    def three_step(self, qcols, vid=None, other=None, variant=None):
+        """view V writes U; ANOTHER handle (another view with the column, a sub-view of V, its parent, the whole-table view, the
+        Component's own view, the manager's tracked view) overwrites a cell U addressed; rejected updates / reads of V in between;
+        V writes U again - verbatim (same index order, values, dtypes), or the same content in another container (other index
+        kind, Series <-> DataFrame), or first in another dtype (rejected) and then verbatim. Every time all of U must be written."""
+        rng = self.rng
+        if self.n == 0:
+            return []
+        cands = [v for v in self.views if any(c in self.dtypes for c in self.vcols(v))] if vid is None else [vid]
+        rng.shuffle(cands)
+        for v in cands:
+            rows = self.rows(1) or [rng.randrange(self.n)]
+            u = self.good_update(v, rows=rows)
+            if not u:
+                continue
+            u["mutate"] = rng.random() < 0.3
+            name0 = u["cols"][0][0]
+            col = rng.choice([c[0] for c in u["cols"]]) if name0 is not None else self.vcols(v)[0]
+            ucol = next(c for c in u["cols"] if c[0] in (col, None))
+            ops = [dict(u, move="first-write")]
+            others = self.other_handles(v, col) if other is None else [other]
+            if not others or (other is None and rng.random() < 0.25 and self.views[v]):
+                ops.append({"a": "sub", "id": self.next_id, "parent": v, "cols": [col], "as_str": rng.random() < 0.3})
+                self.views[self.next_id] = [col]
+                others = [self.next_id]
+                self.next_id += 1
+            ops.append(self.overwrite(rng.choice(others), col, u["rows"], ucol[2]))
+            for _ in range(rng.choice([0, 0, 1, 2])):          # things that must NOT make V forget or remember anything
+                r = rng.random()
+                if r < 0.5:
+                    b = self.bad_update(v, rng.choice(["dtype", "unknownrow", "foreign", "nocols", "type"]))
+                    if b:
+                        ops.append(dict(b, move="rejected-in-between"))
+                elif r < 0.8:
+                    ops.append(dict(self.read(v, qcols), move="read-in-between"))
+                else:
+                    ops.append({"a": "pop", "untracked": True, "via": "sim", "mutate": rng.random() < 0.5})
+            variant = variant or rng.choice(["verbatim", "verbatim", "verbatim", "other-index-kind", "other-form", "rejected-dtype-then-verbatim"])
+            again = copy.deepcopy(u)
+            again["mutate"] = False
+            if variant == "other-index-kind":
+                again["ikind"] = rng.choice([k for k in ["int64", "range", "int32"] if k != u.get("ikind")])
+            elif variant == "other-form" and len(u["cols"]) == 1:
+                again["form"] = "S" if u["form"] == "D" else "D"
+                if again["form"] == "D" and again["cols"][0][0] is None:
+                    again["cols"][0][0] = col
+            elif variant == "rejected-dtype-then-verbatim":
+                wrong = copy.deepcopy(u)
+                j = rng.randrange(len(wrong["cols"]))
+                d = wrong["cols"][j][1]
+                alt = {"int": "i32", "flt": "f32", "str": "obj", "cat": "str", "bool": "int", "time": "int"}[d]
+                wrong["cols"][j][1] = alt
+                if alt == "int" and d != "bool":
+                    wrong["cols"][j][2] = tk.value_tokens("int", rng, len(wrong["rows"]))
+                if d == "bool":
+                    wrong["cols"][j][2] = ["i1" if t == "b1" else "i0" for t in wrong["cols"][j][2]]
+                if d == "time":
+                    wrong["cols"][j][2] = tk.value_tokens("int", rng, len(wrong["rows"]))
+                if wrong["rows"]:
+                    ops.append(dict(wrong, mutate=False, kind="dtype", move="same-update-in-another-dtype"))
+            ops.append(dict(again, move="repeat:" + variant))
+            return ops
+        return []
+
+    def read_twice(self, qcols):
+        """the same get twice through the same handle with a write by another handle in between: the second read must see the
+        write, the frame handed out first must not"""
+        rng = self.rng
+        if self.n == 0:
+            return []
+        cands = [v for v in self.views if self.views[v] and any(c in self.dtypes and c != "tracked" for c in self.views[v])]
+        if not cands:
+            return []
+        v = rng.choice(cands)
+        g1 = self.read(v, qcols)
+        if not g1["idx"] or any(r >= self.n for r in g1["idx"]):
+            g1["idx"] = self.rows(1) or [0]
+        col = rng.choice([c for c in self.views[v] if c in self.dtypes and c != "tracked"])
+        others = self.other_handles(v, col) or [v]
+        rows = sorted(set(g1["idx"]))
+        w = self.overwrite(rng.choice(others), col, rows, ["?"] * len(rows))
+        g2 = copy.deepcopy(g1)
+        return [dict(g1, move="first-read"), w, dict(g2, move="repeat:read")]
 
     def inside(self, p, qcols, initial=False):
         """what an initializer may do besides writing: read through any view (its own or another component's, also one whose
@@ -246,7 +360,56 @@ class C11(tk.TableProp):
         out.append(self._gen(rng, "quick", n0=3, wrongdtype=True))
         out.append(self._gen(rng, "quick", n0=2, ncols=1, every_bad=True))
         out.append(self._gen(rng, "quick", n0=4, reg="component", late=True))
+        out += self.three_step_boundary()
         return out
+
+    @staticmethod
+    def three_step_boundary():
+        """V writes U, V' overwrites a cell of U, (V is refused something,) V writes U again - for every ordered pair of handle
+        kinds: explicit view, view with the tracked column, whole-table view, the Component's own view, a sub-view of the
+        explicit view, a sub-view of the whole-table view (so also sub-view <-> parent); the same for the `tracked` column with
+        the manager's own view; Series and DataFrame; in a second case with the rows of U in another order"""
+        cases = []
+        for flavour in (0, 1):
+            rng = random.Random(f"C11-three-step-{flavour}")
+            cols = [("a", "int"), ("b", "flt")]
+            g = Gen(rng, cols, 4)
+            views = [{"id": 1, "cols": ["a", "b"], "q": ["T"]}, {"id": 2, "cols": ["a", "tracked"], "q": ["a", "a", "ge", "i-5"]},
+                     {"id": 3, "cols": [], "q": ["T"]}, {"id": 4, "auto": True, "cols": ["a", "b", "tracked"], "required": ["tracked"], "q": ["T"]}]
+            g.views = {0: ["tracked"], 1: ["a", "b"], 2: ["a", "tracked"], 3: [], 4: ["a", "b", "tracked"]}
+            g.next_id = 7
+            ops = [{"a": "sub", "id": 5, "parent": 1, "cols": ["a"], "as_str": True}, {"a": "sub", "id": 6, "parent": 3, "cols": ["a", "tracked"]}]
+            g.views[5], g.views[6] = ["a"], ["a", "tracked"]
+            val = 100
+            for col, handles in (("a", [1, 2, 3, 4, 5, 6]), ("tracked", [0, 2, 3, 4, 6])):
+                for v in handles:
+                    for w in handles:
+                        if v == w:
+                            continue
+                        rows = [2, 0, 3] if flavour == 0 else [0, 3, 2]
+                        if col == "a":
+                            val += 10
+                            toks, other = [f"i{val}", f"i{val + 1}", f"i{val + 2}"], f"i{-val}"
+                        else:
+                            toks, other = (["b0", "b0", "b1"], "b1") if (v + w) % 2 else (["b1", "b0", "b0"], "b0")
+                        form = "S" if (v + w + flavour) % 2 and (col == "a" or v != 0 or True) else "D"
+                        name = None if form == "S" and len(g.views[v]) == 1 and (v + w) % 3 == 0 else col
+                        u = {"a": "upd", "view": v, "form": form, "rows": rows, "cols": [[name, g.dtypes[col], toks]],
+                             "ikind": ["int64", "int32"][(v + w) % 2], "mutate": bool((v + w) % 2), "move": "first-write"}
+                        ops.append(u)
+                        ops.append({"a": "upd", "view": w, "form": "D", "rows": [rows[1]], "cols": [[col, g.dtypes[col], [other]]],
+                                    "move": "overwrite-by-another-handle"})
+                        if (v + w) % 3 == 1:
+                            ops.append({"a": "upd", "view": v, "form": "D", "rows": rows, "kind": "dtype", "move": "rejected-in-between",
+                                        "cols": [[col, "f32" if col == "a" else "int", ["f1/0", "f2/0", "f3/0"] if col == "a" else ["i1", "i0", "i1"]]]})
+                        if (v + w) % 3 == 2:
+                            ops.append({"a": "get", "view": v, "idx": rows, "q": ["T"], "mutate": True, "move": "read-in-between"})
+                        ops.append(dict(copy.deepcopy(u), mutate=False, move="repeat:verbatim"))
+            init = {"pop": [{"a": "upd", "view": 1, "form": "D", "rows": [0, 1, 2, 3], "catch": False,
+                             "cols": [["a", "int", ["i1", "i2", "i3", "i4"]], ["b", "flt", ["f1/1", "f2/0", "f0/0", "n"]]]}]}
+            cases.append({"comps": [{"name": "pop", "cols": [list(c) for c in cols], "views": views, "reg": "component"}], "pop": 4,
+                          "init": init, "steps": 0, "ops": ops, "seeds": [1, 2, 3]})
+        return cases
 
     def generate(self, rng, i, tier):
         return self._gen(rng, tier)
@@ -326,6 +489,23 @@ class C11(tk.TableProp):
                         break
                 if spec:
                     ops.append(spec)
+            elif r < 0.06:
+                ops += g.three_step(cols)
+            elif r < 0.08:
+                ops += g.read_twice(cols)
+            elif r < 0.10 and any(o["a"] == "create" and o.get("kind") != "wrongdtype" for o in ops):
+                prev = [o for o in ops if o["a"] == "create" and o.get("kind") != "wrongdtype"][-1]      # the same creation request again
+                k = prev["k"]
+                shift = g.n - prev["start"]
+                again = copy.deepcopy(prev)
+                for f in again["fills"].values():
+                    for a in f:
+                        if a["a"] == "upd":
+                            a["rows"] = [r0 + shift for r0 in a["rows"]]
+                again["fills"] = {c: [a for a in f if a["a"] == "upd"] for c, f in again["fills"].items()}
+                again["move"] = "repeat:create"
+                g.n += k
+                ops.append(again)
             elif r < 0.30:
                 spec = g.good_update(vid)
                 if spec:
@@ -347,7 +527,7 @@ class C11(tk.TableProp):
                 k = rng.choice([0, 1, 2, 3])
                 labels = list(range(g.n, g.n + k))
                 g.n += k
-                ops.append({"a": "create", "k": k, "comp": rng.choice(["pop", "late"] if late else ["pop"]),
+                ops.append({"a": "create", "k": k, "comp": rng.choice(["pop", "late"] if late else ["pop"]), "start": labels[0] if labels else g.n,
                             "fills": fills(labels, rng.choice(["full", "full", "partial"]))})
             elif r < 0.90:
                 pc = g.vcols(vid)
@@ -396,6 +576,7 @@ class C11(tk.TableProp):
                 if after["rows"][:len(b["rows"])] != b["rows"] or len(after["rows"]) != len(b["rows"]) + cr["k"]:
                     fail("create-rows", f"log {i}: rows {b['rows']} + {cr['k']} -> {after['rows']}")
         fails += tk.held_failures(obs) + tk.population_failures(obs) + tk.history_failures(case, obs)
+        fails += [f for f in tk.read_failures(case, obs) if f["sig"] != "read-changed-table"]     # (reads: the clauses of C12)
         return fails
 
     def _check_update(self, i, e, prev, after, cr, vdefs, fail):
@@ -522,6 +703,8 @@ class C11(tk.TableProp):
         for a in case.get("ops", []):
             if a.get("kind"):
                 t.append("gen-bad:" + a["kind"])
+            if a.get("move"):
+                t.append("move:" + a["move"])
         vd = tk.view_defs(case, obs)
         for i, e, prev, cr in tk.walk(obs):
             where = "birth" if cr is not None and cr.get("before") is not None else ("initial" if cr is not None else "step")
